@@ -52,6 +52,25 @@ def check_case(ctx, case):
                 ctx.violation('cross-experimental', 'implementation %r, model %r' % (exp.tolist(), m), case)
         ctx.lean.ask(['c01', 'exp', kw['estimator'], frs(edges), frs(d), frs(diffs)], cb2)
 
+    # ---- the products are those of the table that was handed over: an in-place change of the caller's table
+    #      afterwards, followed by a forced re-computation, must not reach the instance
+    try:
+        tab = np.ascontiguousarray(vals[:, :2]).copy()
+        with quiet():
+            W = Variogram(coords, tab, **kw)
+            d1 = np.asarray(W.pairwise_diffs, float).copy()
+            tab[:, 1] = tab[::-1, 1] * 3.0 + 7.0
+            tab[:, 0] += 5.0
+            W.preprocessing(force=True)
+            d2 = np.asarray(W.pairwise_diffs, float)
+        ctx.count('caller_table_mutated_then_recomputed')
+        if not all_close(d2.tolist(), d1.tolist(), rel=1e-12, abs_=1e-300):
+            ctx.violation('cross-diffs-follow-caller', 'after the caller changed its two-column table in place and the instance '
+                          're-computed, the pairwise products are no longer those of the table that was handed over',
+                          dict(case, caller_mutation=True))
+            return
+    except ValueError as e:
+        ctx.reject('ValueError:' + str(e)[:40])
     # ---- re-assigning the value table on the same instance (same primary column, other co-variable;
     #      ordinary <-> cross): the products must follow the *current* table
     if N >= 3 and not sparse:
